@@ -693,10 +693,7 @@ impl Scaler for FreeTypeScaler<'_> {
                     .ok_or(InsufficientMemory)?;
                 original_scaled.copy_from_slice(scaled);
                 // When hinting, round the phantom points.
-                for point in &mut scaled[phantom_start..] {
-                    point.x = point.x.round();
-                    point.y = point.y.round();
-                }
+                round_phantom_points(&mut scaled[phantom_start..]);
                 let mut input = HintOutline {
                     glyph_id,
                     unscaled,
@@ -727,9 +724,7 @@ impl Scaler for FreeTypeScaler<'_> {
                 // Notably, FreeType never calls TT_Hint_Glyph for composite
                 // glyphs when instructions are missing so this only applies
                 // to simple glyphs.
-                for (scaled, phantom) in scaled[phantom_start..].iter().zip(&mut self.phantom) {
-                    *phantom = scaled.map(|x| x.round());
-                }
+                round_phantom_points(&mut self.phantom);
             }
         }
         if points_start != 0 {
@@ -956,10 +951,7 @@ impl Scaler for FreeTypeScaler<'_> {
                     .get_mut(contour_base..self.contour_count)
                     .ok_or(InsufficientMemory)?;
                 // Round the phantom points.
-                for p in &mut scaled[phantom_start..] {
-                    p.x = p.x.round();
-                    p.y = p.y.round();
-                }
+                round_phantom_points(&mut scaled[phantom_start..]);
                 // Clear the "touched" flags that are used during IUP processing.
                 for flag in flags.iter_mut() {
                     flag.clear_marker(PointMarker::TOUCHED);
@@ -1288,6 +1280,21 @@ impl Scaler for HarfBuzzScaler<'_> {
             self.component_delta_count = delta_base;
         }
         Ok(())
+    }
+}
+
+/// Rounds the phantom points before hinting.
+///
+/// FreeType only rounds the x coordinates of the horizontal phantom points
+/// and the y coordinates of the vertical phantom points.
+///
+/// See <https://gitlab.freedesktop.org/freetype/freetype/-/blob/57617782464411201ce7bbc93b086c1b4d7d84a5/src/truetype/ttgload.c#L871>
+fn round_phantom_points(phantom: &mut [Point<F26Dot6>]) {
+    if let [pp1, pp2, pp3, pp4] = phantom {
+        pp1.x = pp1.x.round();
+        pp2.x = pp2.x.round();
+        pp3.y = pp3.y.round();
+        pp4.y = pp4.y.round();
     }
 }
 
